@@ -785,6 +785,8 @@ def _record_outcomes(xfers):
 
 
 def cleanup(obs):
+    if getattr(obs, 'dirwatch', None) is not None:
+        obs.dirwatch.close()
     shutil.rmtree(obs.tmpdir, ignore_errors=True)
 
 
